@@ -810,7 +810,11 @@ impl RecordRows {
                         fields.insert(row.id.ident());
                     }
                     RecordRowsIteratorItem::TailVar(id)
-                        if simplify_vars.rrows_vars_elide.get(&id.ident()).is_none() =>
+                        if simplify_vars
+                            .rrows_vars_elide
+                            .get(&id.ident())
+                            .and_then(Option::as_ref)
+                            .is_none() =>
                     {
                         can_elide = false;
                     }
@@ -872,7 +876,10 @@ impl RecordRows {
                 }
                 RecordRowsF::TailDyn => RecordRowsF::TailDyn,
                 RecordRowsF::TailVar(id) => {
-                    let excluded = simplify_vars.rrows_vars_elide.get(&id.ident());
+                    let excluded = simplify_vars
+                        .rrows_vars_elide
+                        .get(&id.ident())
+                        .and_then(Option::as_ref);
 
                     match (excluded, polarity) {
                         // If the variable was introduced in positive position, it won't cause any
@@ -1128,7 +1135,8 @@ impl Type {
                 // `Dyn`. We don't bother messing with the contract environment and only register
                 // them in `simplify_vars`. Subsequent calls to `simplify` will check the register
                 // and replace the variable by `Dyn` when appropriate.
-                simplify_vars.type_vars_elide.insert(var.ident(), ());
+                simplify_vars.type_vars_elide.insert(var.ident(), true);
+                simplify_vars.rrows_vars_elide.insert(var.ident(), None);
 
                 let result = body.simplify(contract_env, simplify_vars, polarity);
                 // we keep the position of the body, not the one of the forall
@@ -1140,7 +1148,10 @@ impl Type {
                 var_kind: VarKind::RecordRows { excluded },
                 body,
             } if polarity == Polarity::Positive => {
-                simplify_vars.rrows_vars_elide.insert(var.ident(), excluded);
+                simplify_vars
+                    .rrows_vars_elide
+                    .insert(var.ident(), Some(excluded));
+                simplify_vars.type_vars_elide.insert(var.ident(), false);
 
                 let result = body.simplify(contract_env, simplify_vars, polarity);
                 // we keep the position of the body, not the one of the forall
@@ -1161,12 +1172,20 @@ impl Type {
                 var,
                 var_kind,
                 body,
-            } => TypeF::Forall {
-                var,
-                var_kind,
-                body: Box::new(body.simplify(contract_env, simplify_vars, polarity)),
-            },
-            TypeF::Var(id) if simplify_vars.type_vars_elide.get(&id).is_some() => TypeF::Dyn,
+            } => {
+                // This forall is kept, so the occurrences of its variable in the body must be
+                // kept as well: it shadows any variable of the same name that was introduced by
+                // an enclosing, elided forall.
+                simplify_vars.type_vars_elide.insert(var.ident(), false);
+                simplify_vars.rrows_vars_elide.insert(var.ident(), None);
+
+                TypeF::Forall {
+                    var,
+                    var_kind,
+                    body: Box::new(body.simplify(contract_env, simplify_vars, polarity)),
+                }
+            }
+            TypeF::Var(id) if simplify_vars.type_vars_elide.get(&id) == Some(&true) => TypeF::Dyn,
             // Any ground type in positive position can be entirely elided
             TypeF::Number | TypeF::String | TypeF::Bool | TypeF::Symbol | TypeF::ForeignId
                 if matches!(polarity, Polarity::Positive) =>
@@ -1353,11 +1372,15 @@ impl Traverse<NickelValue> for Type {
 struct SimplifyVars {
     /// Environment used as a persistent HashSet to record type variables that can be elided
     /// (replaced by `Dyn`) because they were introduced by a forall in positive position.
-    type_vars_elide: Environment<Ident, ()>,
+    ///
+    /// A variable bound to `false` has been shadowed by a `forall` that isn't elided.
+    type_vars_elide: Environment<Ident, bool>,
     /// Record record rows variables that were introduced by a forall in positive position and
     /// their corresponding `excluded` field. They will be substituted for different simplified
     /// contracts depending on where the variable appears and the surrounding record.
-    rrows_vars_elide: Environment<Ident, HashSet<Ident>>,
+    ///
+    /// A variable bound to `None` has been shadowed by a `forall` that isn't elided.
+    rrows_vars_elide: Environment<Ident, Option<HashSet<Ident>>>,
 }
 
 impl SimplifyVars {
@@ -1446,6 +1469,20 @@ mod tests {
         assert_simplifies_to(
             "(forall r. {meta : String, count: Number; r} -> {; r}) -> {meta : String, count: Number}",
             "(forall r. {meta : Dyn, count : Dyn; r} -> {; r}) -> Dyn",
+        );
+    }
+
+    #[test]
+    fn simplify_respects_shadowing() {
+        // The inner `forall a` is in negative position and is kept: its `a` must not be replaced
+        // by `Dyn` just because the outer, elided forall binds the same name.
+        assert_simplifies_to(
+            "forall a. (forall a. a -> a) -> a -> a",
+            "(forall a. a -> a) -> Dyn -> Dyn",
+        );
+        assert_simplifies_to(
+            "forall r. (forall r. {x : Number; r} -> {x : Number; r}) -> {y : Number; r} -> Number",
+            "(forall r. {x : Dyn; r} -> {x : Number; r}) -> {y : Number; Dyn} -> Dyn",
         );
     }
 
